@@ -677,8 +677,8 @@ def run(ctx: lib.Ctx) -> None:
     t0 = time.time()
     ctx.extra['phase_seconds'] = T
     rng = ctx.rng
-    maxlen = ctx.n(9, 13)
-    ctx.rule = (f'syntactic: every name accepted by the macro regexes with len <= {maxlen} (plus all fixed names and every well-formed PAIR/UNPAIR tree up to 6/8 leaves; thorough: ill-formed PAIR names of length 12-13 are a 25% sample), each with its '
+    maxlen = ctx.n(9, 12)
+    ctx.rule = (f'syntactic: every name accepted by the macro regexes with len <= {maxlen} (plus all fixed names and every well-formed PAIR/UNPAIR tree up to 6/8 leaves; thorough: ill-formed PAIR names of length 10 are a 30% sample, of length 11-12 a 3% sample), each with its '
                 'canonical annotation-free call and with PRNG-drawn annotations / argument counts, plus one-letter mutations of '
                 'accepted names; semantic: real Interpreter on PUSH…;MACRO for every well-formed accepted name (quick: PAIR-tree '
                 'names all, path names sampled) on PRNG-drawn stacks of matching shape and on perturbed stacks. '
@@ -723,15 +723,17 @@ def run(ctx: lib.Ctx) -> None:
     # ---- (1) syntactic correspondence ----------------------------------------------------------
     names = fixed_names() + list(family_names(maxlen))
     if ctx.thorough:
-        # names of length 12-13 matched by the PAIR regexes that are NOT trees (236k of them, no reference meaning):
-        # a 25 % PRNG sample instead of all, to stay inside the time budget; everything else stays exhaustive
+        # names of length 10-12 matched by the PAIR regexes that are NOT trees (no reference meaning): a 30 % (length 10) / 3 %
+        # (length 11-12) PRNG sample
+        # instead of all, to stay inside the CPU budget; everything else (all families up to length 12, every well-formed
+        # tree up to 8 leaves) stays exhaustive
         def keep(n):
-            if len(n) < 12 or not re.fullmatch(r'(UN)?P[PAI]{3,}R', n):
+            if len(n) < 10 or not re.fullmatch(r'(UN)?P[PAI]{3,}R', n):
                 return True
-            return wf_tree(n[2:] if n.startswith('UN') else n) is not None or rng.random() < 0.25
+            return wf_tree(n[2:] if n.startswith('UN') else n) is not None or rng.random() < (0.30 if len(n) == 10 else 0.03)
         before = len(names)
         names = [n for n in names if keep(n)]
-        ctx.extra['illformed_pair_names_len_12_13_sampled_out'] = before - len(names)
+        ctx.extra['illformed_pair_names_len_10_12_sampled_out'] = before - len(names)
     # well-formed PAIR / UNPAIR trees are few: go deeper than the length bound for them (every tree shape)
     max_leaves = ctx.n(6, 8)
     seen = set(names)
@@ -749,14 +751,15 @@ def run(ctx: lib.Ctx) -> None:
         ctx.violation('enumerated name not matched by exactly one macro regex', {'names': notone[:10], 'correspondence': 'C19/macro regexes'}, found=False)
         return
 
-    def variants(name):
+    def variants(name, light=False):
         ar = arity(name)
         canon = tuple(rng.choice(ARG_POOL) for _ in range(ar))
         yield (), canon
         if ar:
             for combo in arg_combos(rng, ar):
                 yield (), combo
-        full = len(name) <= ctx.n(7, 9) or not re.fullmatch(r'(UN)?P[PAI]{3,}R', name) or wf_tree(name[2:] if name.startswith('UN') else name)
+        full = (len(name) <= ctx.n(7, 9) or not re.fullmatch(r'(UN)?P[PAI]{3,}R', name) or wf_tree(name[2:] if name.startswith('UN') else name)) \
+            and not (light and ctx.thorough)
         if full or rng.random() < ctx.n(10, 30) / 100:
             k = rng.choice([1, 1, 2, 3, 4, 6])
             yield tuple(rng.choice(ANNOT_POOL) for _ in range(k)), canon
@@ -767,7 +770,7 @@ def run(ctx: lib.Ctx) -> None:
 
     mutated = set()
     pool = [n for n in names if len(n) <= 9]
-    for _ in range(ctx.n(350, 6000)):
+    for _ in range(ctx.n(350, 2500)):
         n = rng.choice(pool)
         i = rng.randrange(len(n) + 1)
         k = rng.random()
@@ -782,7 +785,7 @@ def run(ctx: lib.Ctx) -> None:
 
     cases, meta = [], []
     for name in names + mutated:
-        for annots, texts in variants(name):
+        for annots, texts in variants(name, light=name in mutated_only):
             args = [parse_arg(t) for t in texts]
             out = impl_expand(name, annots, args)
             if out is not None and out and out[0] == '<not a list>':
